@@ -300,7 +300,7 @@ def resume_cases(ctx):
     rng = ctx.rng(3403)
     out = []
     # (nd, ns, k, nb): k < n_rel (truncated, eigsh from the start) and k = n_rel (all eigenvalues)
-    confs = [(6, 8, 6, 3), (6, 8, 5, 2), (7, 5, 5, 3)] if ctx.quick else \
+    confs = [(6, 8, 6, 3), (6, 8, 5, 2)] if ctx.quick else \
             [(6, 8, 6, 3), (6, 8, 5, 2), (7, 5, 5, 3), (6, 7, 6, 2), (8, 6, 4, 3), (5, 9, 5, 4), (7, 7, 6, 4)]
     for j, (nd, ns, k, nb) in enumerate(confs):
         m = gen_model(rng, nd=nd, ns=ns)
@@ -379,9 +379,13 @@ def run_resume(c, splits=None):
         ref = _one_elbo(c, {}, outdir=tmp)
         ev = np.load(os.path.join(tmp, "metric_%s_eigenvalues.npy" % c["space"]))
         vecs = np.load(os.path.join(tmp, "metric_%s_eigenvectors.npy" % c["space"]))
-    out = {"ref": ref, "n_saved": int(ev.size), "splits": {}}
+    out = {"ref": ref, "n_saved": int(ev.size), "splits": {}, "ev": ev, "ev_res": {}}
     for p in (splits or range(1, k)):
-        out["splits"][int(p)] = _one_elbo(c, {"resume_eigenvalues": ev[:p].copy(), "resume_eigenvectors": vecs[:, :p].copy()})
+        with tempfile.TemporaryDirectory(dir=scratch()) as tmp2:
+            out["splits"][int(p)] = _one_elbo(c, {"resume_eigenvalues": ev[:p].copy(), "resume_eigenvectors": vecs[:, :p].copy()},
+                                              outdir=tmp2)
+            f = os.path.join(tmp2, "metric_%s_eigenvalues.npy" % c["space"])
+            out["ev_res"][int(p)] = np.load(f) if os.path.exists(f) else np.zeros(0)
     return out
 
 
@@ -391,8 +395,10 @@ def resume_checks(c, o):
     out = []
     if k < nrel:          # the one-go run is iterative as well
         out.append(("batches", "batches_case %d %d 0 %s" % (k, nb, C.clist(["%d%%nat" % x for x in o["ref"][3]]))))
+    sigma = 1 if c["space"] == "data" else 0
     for p, r in sorted(o["splits"].items()):
         out.append(("batches-resume", "batches_case %d %d %d %s" % (k, nb, p, C.clist(["%d%%nat" % x for x in r[3]]))))
+        out.append(("shift-resume", "shift_case %d %s %s %s" % (sigma, C.cq(TOL), cql(o["ev"]), cql(o["ev_res"][p]))))
     return out
 
 
